@@ -50,7 +50,7 @@ func evalC02Traced(w *fw.W, s, aux string) {
 	w.OutcomeStr(sig)
 }
 
-var htmlOpeners = []string{"", "<", "<a ", "<a b=", "<a b='", "<a b=\"", "<a b=`", "<!--", "<![CDATA[", "<%", "<?", "<!", "<!doctype ", "</", "<a/"}
+var htmlOpeners = []string{"", "<", "<a ", "<a b=", "<a href=", "<a href='", "<a style=\"", "<a b='", "<a b=\"", "<a b=`", "<!--", "<![CDATA[", "<%", "<?", "<!", "<!doctype ", "</", "<a/"}
 var htmlClosers = []string{"", ">", "<script>"}
 
 func init() {
@@ -80,9 +80,10 @@ func init() {
 				Run: func(w *fw.W) {
 					w.Each(len(cuts), func(i int) { w.Item(cuts[i], "") })
 				}, Eval: evalC02Traced},
-			{Name: "repetition", Space: "opener x unit in H1^<=2 x closer at 4K/64K; 1 MB (quick) / 8 MB (thorough) for single-byte units", Share: 2,
+			{Name: "repetition", Space: "opener x unit in H1^<=2 x closer at 4K (call-depth and work-budget monitors armed); units H1^<=1 (quick) / <=2 (thorough) at 64K; 1 MB (quick) / 8 MB (thorough) for single-byte units", Share: 2,
 				Run: func(w *fw.W) {
-					runRep(w, alpha.Units(alpha.H1, w.Pick(1, 2)), htmlOpeners, htmlClosers, []int{4096, 65536})
+					runRep(w, alpha.Units(alpha.H1, 2), htmlOpeners, htmlClosers, []int{4096})
+					runRep(w, alpha.Units(alpha.H1, w.Pick(1, 2)), htmlOpeners, htmlClosers, []int{65536})
 					runRep(w, alpha.Units(alpha.H1, 1), []string{"", "<a ", "<a b=", "<"}, []string{""}, []int{w.Pick(1<<20, 8<<20)})
 				}, Eval: evalC02Public},
 		},
